@@ -371,6 +371,8 @@ def coq_cases(run):
 
 
 def correspond(ctx, corr, model_ok):
+    from harness import battery
+    battery.run(corr, ['reconnect-producers-wire'])
     n = ctx.scale(80, 900)
     descs = mk_descs(ctx.rng, n)
     cases = []
@@ -466,6 +468,10 @@ def search(ctx, budget):
 
 
 def replay(obj):
+    from harness import battery as _bat
+    _r = _bat.replay(obj.get('case') if isinstance(obj.get('case'), dict) else obj)
+    if _r is not None:
+        return _r
     case = obj.get('case') or obj
     if 'reconnect_case' in case:
         return bool(reconnect_oracle())
